@@ -124,7 +124,7 @@ def plan_seq(pid, tier, seed, ncpu):
             js += seq_jobs(bindirs["dbg"], workdir, known, pid, p, total * s // shares, ops, seed, n)
         # long histories (200-400 ops): reach the 64-op flush points of the read / write logs without sync()
         js += seq_jobs(bindirs["dbg"], workdir, known, pid, profiles[0][0], max(200, total // 40), 400, seed, 2, prefix="long")
-        if pid in ("C01", "C05", "C06", "C07", "C03", "C10", "C16"):
+        if pid in ("C01", "C05", "C06", "C07", "C03", "C10", "C16", "C04", "C12", "C13"):
             # injected faults: the caller's own callbacks (V::clone, weigher, predicate) panic at a chosen call; a call that
             # panicked after changing anything is of unknown outcome (both possibilities are kept), everything else is judged as usual
             js += seq_jobs(bindirs["dbg"], workdir, known, pid, "fault", scale(tier, 40000, 1000000), 50, seed, 2, prefix="fault")
@@ -212,10 +212,11 @@ def plan_seq(pid, tier, seed, ncpu):
                       "(by the clock) before the observation began (least fixpoint).")
     fl = {k: int(v * (1 if tier == "quick" else min(mult, 10))) for k, v in floors.items()}
     fl.update(extra_floors)
-    if pid in ("C01", "C05", "C06", "C07", "C03", "C10", "C16"):
+    if pid in ("C01", "C05", "C06", "C07", "C03", "C10", "C16", "C04", "C12", "C13"):
         fl["faults_fired"] = 1000 * m10
         fault_rule = (" Fault clause: in a share of the histories a callback of the caller (V::clone, the weigher, the predicate of invalidate_entries_if) panics at a chosen "
-                       "call of the next operation; if nothing at all changed the operation did not happen, otherwise the ground truth keeps both outcomes; lookups are judged as always.")
+                       "call of the next operation; if nothing at all changed the operation did not happen, otherwise the ground truth follows the physical outcome (an insert whose value is in "
+                       "the map happened, one whose value is not did not; an invalidation removed what is gone) and every monitor goes on from the implementation's own post-state.")
     variants = ["dbg"] + (["rel"] if pid in ("C03", "C04", "C10") else []) + (["dbg0"] if pid in ("C04", "C10", "C05", "C06") else [])
     return dict(variants=variants, jobs=jobs, floors=fl,
                 rule=rule + extra_rule + fault_rule, assumptions=COMMON_ASSUMPTIONS + (CON_ASSUMPTIONS[len(COMMON_ASSUMPTIONS):] if extra_rule else []),
@@ -288,7 +289,7 @@ def plan_c02(pid, tier, seed, ncpu):
         # full-speed chase (no injected delays): windows inside get/insert that no switch point may expose
         js += con_jobs(bindirs["dbg"], workdir, known, pid, "chase", seed, 2, programs=scale(tier, 300, 8000), schedules=3)
         # a one-thread history is an interleaving too: un-synced reads/writes, idle deadlines, invalidations
-        for prof in ("invalidate", "tti", "general"):
+        for prof in ("invalidate", "tti", "general", "fault"):
             js += seq_jobs(bindirs["dbg"], workdir, known, pid, prof, scale(tier, 40000, 1000000), 50, seed, 2, prefix="c02seq")
         return js
 
@@ -521,6 +522,7 @@ def plan_c14(pid, tier, seed, ncpu):
     def jobs(bindirs, workdir, known):
         js = sketch_jobs(bindirs["dbg"], workdir, known, pid, seed, max(1, ncpu // 2), scale(tier, 1200000, 40000000), big=(tier == "thorough"), exhaustive_len=scale(tier, 9, 11))
         js += seq_jobs(bindirs["dbg"], workdir, known, pid, "sketchapi", scale(tier, 160000, 4000000), 50, seed, max(1, ncpu // 2 - 2))
+        js += seq_jobs(bindirs["dbg"], workdir, known, pid, "fault", scale(tier, 30000, 600000), 50, seed, 1, prefix="fault")
         # size-aware caches with hundreds of entries: the size estimate the table is derived from keeps changing
         js += seq_jobs(bindirs["dbg"], workdir, known, pid, "bulk", scale(tier, 240, 6000), 1300, seed, 4, prefix="bulk")
         return js
